@@ -72,6 +72,13 @@ func (f *zc33FakeS3) ServeHTTP(w http.ResponseWriter, r *http.Request) {
 type zc33Stream struct {
 	Pos    int
 	blocks int
+	// reads counts the top-level Read calls; hook (if set) runs inside every top-level Read,
+	// once before and once after the bytes are delivered. Reads made from inside the hook are
+	// served without counting and without running the hook again.
+	epoch  int
+	reads  int
+	hook   func(read int, after bool)
+	inHook bool
 }
 
 func zc33Cap(i int) int {
@@ -84,6 +91,32 @@ func zc33Cap(i int) int {
 	return 8
 }
 
+// zc33Epochs numbers the streams of this process. Every block also carries its stream's
+// epoch (in bytes away from the counter), so blocks handed out in DIFFERENT executions are
+// distinct as well: a generator that keeps a process-wide batch of random bytes may still hold
+// bytes from an earlier execution's stream, and those must not repeat the values of this one.
+// Inside one execution the epoch is constant, so blocks still differ only at byte Pos.
+var zc33Epochs int
+
+func zc33NewStream(pos int) *zc33Stream {
+	zc33Epochs++
+	return &zc33Stream{Pos: pos, epoch: zc33Epochs}
+}
+
+// zc33PutBits writes v into b starting at byte i (little endian, skipping bits a v4 UUID overwrites).
+func zc33PutBits(b []byte, i, v int, xor bool) {
+	for ; v > 0; i = (i + 1) % 16 {
+		c := zc33Cap(i)
+		d := byte(v & (1<<c - 1))
+		if xor {
+			b[i] ^= d
+		} else {
+			b[i] |= d
+		}
+		v >>= c
+	}
+}
+
 func (s *zc33Stream) block(k int) []byte {
 	b := make([]byte, 16)
 	if s.Pos < 0 {
@@ -91,21 +124,32 @@ func (s *zc33Stream) block(k int) []byte {
 			b[i] = byte(k)
 		}
 		b[1] ^= byte(k >> 8)
+		zc33PutBits(b, 9, s.epoch, true) // bytes 9.. (b[0] gives k, so the XOR is invertible)
 		return b
 	}
-	for i, v := s.Pos, k; v > 0; i = (i + 1) % 16 {
-		c := zc33Cap(i)
-		b[i] |= byte(v & (1<<c - 1))
-		v >>= c
-	}
+	zc33PutBits(b, s.Pos, k, false)              // bytes Pos, Pos+1, ...
+	zc33PutBits(b, (s.Pos+8)%16, s.epoch, false) // bytes Pos+8, ... (never reaches the counter's)
 	return b
 }
 
 func (s *zc33Stream) Read(p []byte) (int, error) {
+	idx := -1
+	if !s.inHook && s.hook != nil {
+		idx = s.reads
+		s.reads++
+		s.inHook = true
+		s.hook(idx, false)
+		s.inHook = false
+	}
 	// every Read starts at a fresh block, so a reader never sees part of an earlier block
 	for off := 0; off < len(p); off += 16 {
 		s.blocks++
 		copy(p[off:], s.block(s.blocks))
+	}
+	if idx >= 0 {
+		s.inHook = true
+		s.hook(idx, true)
+		s.inHook = false
 	}
 	return len(p), nil
 }
@@ -168,7 +212,7 @@ func TestVerif_C33_S3(t *testing.T) {
 		cfgSel := x.Choose(2*len(phases)*len(positions), "config(prefix x clock-phase x entropy-stream)")
 		prefix := []string{"", "p/"}[cfgSel%2]
 		phase := phases[cfgSel/2%len(phases)] // position of the first reading inside its microsecond
-		stream := &zc33Stream{Pos: positions[cfgSel/2/len(phases)]}
+		stream := zc33NewStream(positions[cfgSel/2/len(phases)])
 		n := 1 + x.Choose(maxN, "uploads")
 
 		fake.reset()
@@ -243,14 +287,15 @@ func TestVerif_C33_S3(t *testing.T) {
 					continue
 				}
 				gap := ups[j].at.Sub(ups[i].at)
-				class := stream.name() // both uploads drew (distinct) entropy and still collided
-				if ups[i].blocks == 0 || ups[j].blocks == 0 {
-					class = "clock-apart>=1us"
-					if gap == 0 {
-						class = "same-instant"
-					} else if ups[i].at.Truncate(time.Microsecond).Equal(ups[j].at.Truncate(time.Microsecond)) {
-						class = "same-microsecond"
-					}
+				// The class is a function of the choice list only (clock distance; the entropy
+				// stream when the clock cannot explain the collision). It must not depend on
+				// whether THIS execution saw an entropy read: a generator with process-wide
+				// state (a batch of random bytes, say) reads entropy in some executions only.
+				class := "clock-apart>=1us:" + stream.name()
+				if gap == 0 {
+					class = "same-instant"
+				} else if ups[i].at.Truncate(time.Microsecond).Equal(ups[j].at.Truncate(time.Microsecond)) {
+					class = "same-microsecond"
 				}
 				if ups[i].handle != ups[j].handle {
 					class = "two-handles:" + class
@@ -268,12 +313,126 @@ func TestVerif_C33_S3(t *testing.T) {
 			k := ups[0].key
 			shape = fmt.Sprintf("prefix-ok=%v len=%d", strings.HasPrefix(k, wantPrefix), len(k)-len(wantPrefix))
 		}
-		entropy := true
-		for _, u := range ups {
-			entropy = entropy && u.blocks > 0
-		}
-		x.Outcome("n=%d prefix=%q partition=%v entropy-read=%v %s", n, prefix, part, entropy, shape)
+		x.Outcome("n=%d prefix=%q partition=%v %s", n, prefix, part, shape)
 	}
+	// Overlap on the entropy seam: a LONG sequence of uploads through handle 0 (long enough to
+	// cross the boundary of a process-wide batch of up to 64 keys twice from any starting
+	// offset), during which ONE entropy read — the k-th top-level Read of the swapped
+	// crypto/rand.Reader seen in this execution, k enumerated — runs a second upload through
+	// handle 1 re-entrantly, either before or after the bytes are delivered. This is "another
+	// upload overlaps this upload's entropy read" without a scheduler. The verdict depends only
+	// on keys written inside the execution, and the signature only on which uploads collided
+	// relative to the overlapped one, so process-wide generator state left behind by earlier
+	// executions cannot make the result irreproducible.
+	const longN = 130
+	overlapBody := func(x *venum.X, nOverlap int, cfgs [][2]int) {
+		ov := x.Choose(nOverlap+1, "overlapped-entropy-read-index (last = no overlap)")
+		after := false
+		if ov < nOverlap {
+			after = x.Bool("second upload runs after (not before) the bytes are delivered")
+		} else {
+			ov = -1 // no read is overlapped
+		}
+		c := cfgs[x.Choose(len(cfgs), "config(prefix x entropy-stream)")]
+		prefix := []string{"", "p/"}[c[0]]
+		stream := zc33NewStream(c[1])
+		fake.reset()
+		vsched.FreezeClock(base)
+		defer vsched.UnfreezeClock()
+		stA, stB := *tmpl[prefix][0], *tmpl[prefix][1]
+		handles := [2]*S3Storage{&stA, &stB}
+		type up struct {
+			key    string
+			nested bool
+			seq    int // index of the sequential upload (for the nested one: its host)
+		}
+		var ups []up
+		broken := false
+		upload := func(h int) (string, bool) {
+			_, err := handles[h].Upload([]byte("same-payload"), nil, "")
+			if err != nil || len(fake.puts) == 0 {
+				venum.EngineError("overlap space: Upload failed against the fake endpoint: %v (bad=%v)", err, fake.bad)
+				broken = true
+				return "", false
+			}
+			// a nested upload completes before its host's PutObject is sent, so an upload's
+			// own object is always the most recent one when Upload returns
+			return fake.puts[len(fake.puts)-1].Key, true
+		}
+		cur, happened := 0, false
+		stream.hook = func(read int, aft bool) {
+			if read != ov || aft != after || happened || broken {
+				return
+			}
+			happened = true
+			if k, ok := upload(1); ok {
+				ups = append(ups, up{key: k, nested: true, seq: cur})
+			}
+		}
+		rand.Reader = stream
+		defer func() { rand.Reader = realRand }()
+		for cur = 0; cur < longN && !broken; cur++ {
+			if k, ok := upload(0); ok {
+				ups = append(ups, up{key: k, seq: cur})
+			}
+		}
+		rand.Reader = realRand
+		if broken {
+			return
+		}
+		if want := longN + map[bool]int{true: 1}[happened]; len(fake.puts) != want || len(ups) != want {
+			venum.EngineError("overlap space: %d objects written, %d recorded, want %d (bad=%v)", len(fake.puts), len(ups), want, fake.bad)
+			return
+		}
+		first := map[string]int{}
+		collisions := 0
+		for j, u := range ups {
+			i, seen := first[u.key]
+			if !seen {
+				first[u.key] = j
+				continue
+			}
+			collisions++
+			a, b := ups[i], u
+			rel := "between-sequential-uploads"
+			if a.nested || b.nested {
+				n, o := a, b
+				if b.nested {
+					n, o = b, a
+				}
+				switch {
+				case o.seq < n.seq:
+					rel = "overlapping-upload-vs-earlier-upload"
+				case o.seq == n.seq:
+					rel = "overlapping-upload-vs-overlapped-upload"
+				default:
+					rel = "overlapping-upload-vs-later-upload"
+				}
+			}
+			x.Failf("C33:s3:key-reused:overlapped-entropy-read:"+rel,
+				"%d uploads through handle 0; while its entropy read #%d (of this execution) was in progress (%s the bytes were delivered) upload #%d was overlapped by an upload through handle 1; uploads [seq %d nested=%v] and [seq %d nested=%v] both wrote object key %q",
+				longN, ov, map[bool]string{false: "before", true: "after"}[after], func() int {
+					for _, v := range ups {
+						if v.nested {
+							return v.seq
+						}
+					}
+					return -1
+				}(), a.seq, a.nested, b.seq, b.nested, u.key)
+		}
+		wantPrefix := prefix
+		if wantPrefix == "" {
+			wantPrefix = "vgi-rpc/"
+		}
+		x.Outcome("long uploads=%d overlap-happened=%v collisions=%d prefix-ok=%v len=%d", len(ups), happened, collisions,
+			strings.HasPrefix(ups[0].key, wantPrefix), len(ups[0].key)-len(wantPrefix))
+	}
+	// quick: the first 4 entropy reads of the execution; thorough: every one of the 130
+	venum.Explore(t, venum.Cfg{Name: "s3-overlapped-entropy-read", Shardable: true, CheckDeterminism: true},
+		func(x *venum.X) {
+			overlapBody(x, venum.QT(4, longN), venum.QT([][2]int{{0, 15}}, [][2]int{{0, 15}, {1, -1}, {0, 0}}))
+		})
+
 	// every interleaving of the two handles, sequences <=3 (quick) / <=4 (thorough)
 	venum.Explore(t, venum.Cfg{Name: "s3-two-handle-sequences", Shardable: true, DevBound: -1, CheckDeterminism: true},
 		func(x *venum.X) { body(x, true, venum.QT(3, 4)) })
